@@ -166,7 +166,8 @@ def build(cfg, compile_cfg=None, distributed_config=None, params=None):
 
     dt = common.dtype_of(cfg["pdtype"])
     if params is None:
-        params = [torch.nn.Parameter(torch.tensor(init_param(i, tuple(s), cfg["seed"]), dtype=dt).reshape(tuple(s))) for i, s in enumerate(cfg["shapes"])]
+        dts = [common.dtype_of(d) for d in cfg["pdtypes"]] if cfg.get("pdtypes") else [dt] * len(cfg["shapes"])  # mixed-precision parameter group
+        params = [torch.nn.Parameter(torch.tensor(init_param(i, tuple(s), cfg["seed"]), dtype=dts[i]).reshape(tuple(s))) for i, s in enumerate(cfg["shapes"])]
     kw = ctor_kwargs(cfg)
     if cfg.get("groups"):
         groups = []
